@@ -110,8 +110,8 @@ func (o OptSpec) mode() string {
 type Case struct {
 	Prop  string `json:"prop"`
 	Arch  string `json:"goarch,omitempty"` // set when the violation was seen in a non-amd64 build
-	Gen   string `json:"gen,omitempty"`   // generator family (information only)
-	VMode string `json:"vmode,omitempty"` // value generator mode (information only)
+	Gen   string `json:"gen,omitempty"`    // generator family (information only)
+	VMode string `json:"vmode,omitempty"`  // value generator mode (information only)
 
 	Keys    []Hex   `json:"keys"`
 	Enc     string  `json:"enc"`
